@@ -366,6 +366,28 @@ def check(ctx, run):
             run.ob("R3", "reallocMemory of a live block to %d bytes (%s record): rejected with NULL before the block's record is touched" % (size, "separate" if sep else "inline"), rm.site, ok, witness={"returns": r, "calls": kinds},
                    what="" if ok else "the overflowing request returns %s after %s: the old block is still allocated but no longer tracked" % (r, kinds))
 
+    # a reallocated block keeps its contents: every function a switch stores in the realloc slot, folded, hands the OLD block to the
+    # detector's reallocMemory untouched (nothing poisons or releases it first)
+    from .C10 import slot_fold
+    rfs = sorted((g for mn_ in prog.slots().get("realloc_fptr", set()) for g in [prog.functions.get(mn_)] if g is not None and g.file.startswith("src/CppUTest/MemoryLeak")), key=lambda g: g.qn)
+    if not rfs:
+        raise AnalysisBroken("C05.R3: no tracked function is ever stored in realloc_fptr")
+    for g in rfs:
+        run.analysed(g)
+        try:
+            ev_, r_, end_, env_ = slot_fold(prog, g)
+        except Unknown as u:
+            raise AnalysisBroken("C05.R3: %s cannot be folded: %s" % (g.qn, u))
+        work = [e_[1] for e_ in ev_ if e_[0] == "detector"]
+        if not work:
+            continue                 # (the untracked function of the switched-off mode)
+        ntracked = locals().get("ntracked", 0) + 1
+        ok = work == ["reallocMemory"]
+        run.ob("R3", "%s (stored in the realloc slot) folded: the old block reaches reallocMemory untouched" % g.name, g.site, ok, witness=work,
+               what="" if ok else "the detector is asked to %s: the old contents are poisoned or released before they can be carried over" % work)
+    if locals().get("ntracked", 0) < 2:
+        raise AnalysisBroken("C05.R3: fewer than two tracked realloc functions (default and thread-safe) found in the realloc slot")
+
     # ---------------- R4 ----------------------------------------------------
     from .C10 import slot_vars
     slots = [s for s in slot_vars(prog) if s.startswith("operator_new")]
